@@ -27,6 +27,10 @@ func runC05(r *engine.Run) {
 	r.Rule("DEP-recordonly", "in RecordDeadNodes the record object is filled only by map stores whose keys derive from the nodes argument and is handed only to saveDeadNodes: the record of a round is exactly what this execution of the round reported (no merge with an earlier record of the same round)")
 	r.Rule("AGREE-nostamp", "see C03: mergeChanges installs the nodes of the child's change set without re-stamping them (the installer it calls in the replay loop sets no origin/version on the node): a node the child took over from another version keeps the hash the child's root refers to, and the donor store's object is not written")
 	r.Rule("DOM-mergeall", "see C03: a change skipped by mergeChanges is never taken out of the dead set again (AddChange is what revives a re-created node)")
+	r.Rule("WHO-collect", "see C04: the store is written and the change collector fed only by insertNode/deleteNode (a node that bypasses the collector has no dead record and no save)")
+	r.Rule("DOM-merge", "see C03: a stale child is never merged")
+	r.Rule("LOCK-mpt", "see C16: root, the stores' maps and level links and the collector's maps are accessed only with their owner's mutex held in the required mode (a writer under the read lock, or on a root read outside the lock, loses another writer's update)")
+	r.Rule("ORDER-critical", "see C16: Insert, Delete, MergeChanges and MergeDB are one critical section each, from the first read of the root to its last update")
 	r.NotDec = append(r.NotDec, "reachability of recorded nodes from later roots (graph property of runtime content)")
 	domCancel(r)
 	agreeHash(r, "DEP-origin")
@@ -39,6 +43,9 @@ func runC05(r *engine.Run) {
 	domRecordWritten(r, "DOM-recordwritten")
 	freshDeadList(r, "FRESH-deadlist")
 	domMergeAll(r, "DOM-mergeall")
+	whoCollect(r)
+	domMerge(r)
+	mptLockDiscipline(r)
 }
 
 func domCancel(r *engine.Run) {
